@@ -88,7 +88,8 @@ Fixpoint lookup (t : N) (l : list (N * schema)) : option schema :=
 (* record types that AllRecordData knows but that have no row here: the
    irregular ones.  schema_of answers None for them (not modelled). *)
 Definition irregular_types : list N := [41; 45].
-(* OPT (its option framing is OptModel.v, option contents below), IPSECKEY *)
+(* OPT (its option framing is OptModel.v, option contents below), IPSECKEY
+   (rows by gateway type: ipseckey_schema) *)
 
 Definition schema_of (t : N) : option schema :=
   match lookup t schema_table_regular with
@@ -116,6 +117,26 @@ Definition row_follows_rfc (r : N * schema) : bool :=
   then negb (existsb is_name_not_lower (s_fields s))     (* every name lower-cased *)
   else negb (existsb is_lower (s_fields s)).             (* no name lower-cased *)
 
+(* ---- IPSECKEY (rdata/ipseckey.rs): the form of the gateway field depends on
+   the gateway type octet (0 none, 1 IPv4, 2 IPv6, 3 an uncompressed name), so
+   there is one row per gateway type; parse picks the row by that octet.  A
+   gateway name with the is_compressed() flag is refused (pname_nc_dec). *)
+Definition gateway_fields (g : N) : list field :=
+  if g =? 1 then [V4] else if g =? 2 then [V6] else if g =? 3 then [NameU false] else [].
+Definition ipseckey_schema (g : N) : schema :=
+  mkS ([U8; U8; U8] ++ gateway_fields g ++ [Rest]) None false (PIpseckey g).
+Definition ipseckey_parse (m : bytes) (pos lim : N) : outcome value :=
+  if lim - pos <? 3 then Err E_SHORT
+  else match get m (pos + 1) with
+       | None => Panic P_INDEX
+       | Some g => if 3 <? g then Err E_FORM
+                   else parse_rdata pname_nc_dec (ipseckey_schema g) m pos lim
+       end.
+(* the row for a value / for the tokens of a T2 case: hint = gateway type *)
+Definition schema_for (t hint : N) : option schema :=
+  if t =? 45 then (if hint <=? 3 then Some (ipseckey_schema hint) else None) else schema_of t.
+Definition hint_of (v : value) : N := match v with _ :: VNum g :: _ => g | _ => 0 end.
+
 (* ---- `==` of the record data enums on opaque data.
    The PartialEq impls generated by rdata_types! match (variant, variant) pairs
    arm by arm and end in `_ => false`; UnknownRecordData::eq compares the
@@ -135,8 +156,8 @@ Definition zone_eq_unknown (t1 : N) (b1 : bytes) (t2 : N) (b2 : bytes) : bool :=
   if Gen.zone_eq_has_unknown_arm then unknown_eq t1 b1 t2 b2 else false.
 
 (* ---- entry points for the correspondence driver *)
-Definition c05_fields (t : N) : option (list field) :=
-  match schema_of t with Some s => Some (s_fields s) | None => None end.
+Definition c05_fields (t hint : N) : option (list field) :=
+  match schema_for t hint with Some s => Some (s_fields s) | None => None end.
 
 Record composed := mkC {
   c_wire : bytes;
@@ -147,7 +168,7 @@ Record composed := mkC {
 
 (* None: no schema; Some None: the constructor rejects; Some (Some c) *)
 Definition c05_compose (t : N) (v : value) : option (option composed) :=
-  match schema_of t with
+  match schema_for t (hint_of v) with
   | None => None
   | Some s =>
       if ctor_accepts s v
@@ -156,6 +177,7 @@ Definition c05_compose (t : N) (v : value) : option (option composed) :=
   end.
 
 Definition c05_parse (t : N) (m : bytes) (pos lim : N) : option (outcome value) :=
+  if t =? 45 then Some (ipseckey_parse m pos lim) else
   match schema_of t with
   | None => None
   | Some s => Some (parse_rdata pname_dec s m pos lim)
